@@ -663,6 +663,121 @@ def init_order(ctx, o):
                    'registration order, so the same seed gives different tie-break draws when ids or names differ', file=s_.mod.path, line=s_.line)
 
 
+ORDERING_FUNCS = {'sorted', 'min', 'max', 'sort', 'insort', 'insort_left', 'insort_right', 'bisect', 'bisect_left', 'bisect_right', 'heappush', 'heappop',
+                  'heapify', 'nsmallest', 'nlargest', 'merge', 'heappushpop', 'heapreplace'}
+
+
+def id_attributes(P):
+    """attribute / property names that carry the asset id or a value derived from it: the public `id` and `name` of Asset (the default name is
+    <class>_<id>), the fields their getters return, and the asset_id field of Event"""
+    A = P.cls('Asset')
+    out = set()
+    for name in ('id', 'name'):
+        fn = (A.props.get(name) or {}).get('get')
+        if fn is None:
+            continue
+        out.add(name)
+        for r in ast.walk(fn):
+            if isinstance(r, ast.Return) and r.value is not None:
+                out.update(x.attr for x in ast.walk(r.value) if is_self_attr(x))
+    if P.has_cls('Event') and 'asset_id' in [a.arg for a in P.method(P.cls('Event'), '__init__')[1].args.args]:
+        out.add('asset_id')
+    return out
+
+
+def identity_only(ctx, o):
+    """asset ids, and the default names built from them, are identities: compared for equality, used as dictionary keys and labels, never as an
+    ordering key -- the one exception being the last key of Event.__lt__, which C14.5 places after the random weight"""
+    P = ctx.P
+    ids = id_attributes(P)
+    o.stats['id_carrying_attributes'] = sorted(ids)
+    o.require('name' in ids and 'id' in ids, f'the id-carrying attributes of Asset could not be determined (found {sorted(ids)})')
+
+    def id_loads(e, tainted=()):
+        out = []
+        for x in ast.walk(e):
+            if isinstance(x, ast.Attribute) and isinstance(x.ctx, ast.Load) and x.attr in ids:
+                out.append(x)
+            elif isinstance(x, ast.Call) and isinstance(x.func, ast.Name) and x.func.id == 'getattr' and len(x.args) >= 2 \
+                    and isinstance(x.args[1], ast.Constant) and x.args[1].value in ids:
+                out.append(x)
+            elif isinstance(x, ast.Name) and x.id in tainted:
+                out.append(x)
+        return out
+
+    def key_function_bodies(k, mod, cls):
+        """expressions a key function returns, with locals built from ids resolved"""
+        if isinstance(k, ast.Lambda):
+            return [(k.body, ())]
+        nm = k.attr if isinstance(k, ast.Attribute) else k.id if isinstance(k, ast.Name) else None
+        if nm is None:
+            return []
+        out = []
+        for m, c, fn in inv.functions(P):
+            if fn.name != nm:
+                continue
+            tainted = set()
+            changed = True
+            while changed:
+                changed = False
+                for st in ast.walk(fn):
+                    if isinstance(st, ast.Assign) and id_loads(st.value, tainted):
+                        for t in st.targets:
+                            for n_ in ast.walk(t):
+                                if isinstance(n_, ast.Name) and n_.id not in tainted:
+                                    tainted.add(n_.id)
+                                    changed = True
+            for r in ast.walk(fn):
+                if isinstance(r, ast.Return) and r.value is not None:
+                    out.append((r.value, tuple(tainted)))
+        return out
+
+    for m, c, fn in inv.functions(P):
+        if 'model' not in P.rel(m.path).split('/'):
+            continue
+        where = f'{c.name}.{fn.name}' if c is not None else fn.name
+        in_event_lt = c is not None and c.name == 'Event' and fn.name in ('__lt__', '__gt__', '__le__', '__ge__')
+        for x in ast.walk(fn):
+            if isinstance(x, ast.Compare) and any(isinstance(op, (ast.Lt, ast.LtE, ast.Gt, ast.GtE)) for op in x.ops):
+                hits = [h for e in [x.left] + x.comparators for h in id_loads(e)]
+                if not hits:
+                    continue
+                o.count()
+                if in_event_lt:
+                    o.witness(('event-order', where))        # position among the keys: C14.5
+                    continue
+                o.fail(P, where, x, f'`{ast.unparse(hits[0])}` takes part in an ordering comparison: ids (and the default names built from them) depend on how many assets were '
+                       'created earlier in the process, the outcome of the comparison must not', file=m.path, line=x.lineno)
+            elif isinstance(x, ast.Call):
+                f = x.func
+                nm = f.attr if isinstance(f, ast.Attribute) else f.id if isinstance(f, ast.Name) else None
+                if nm not in ORDERING_FUNCS:
+                    continue
+                if isinstance(f, ast.Attribute) and nm in ('min', 'max', 'merge') and not (isinstance(f.value, ast.Name) and f.value.id in ('heapq', 'builtins')):
+                    continue
+                o.count()
+                bad = None
+                for kw in x.keywords:
+                    if kw.arg == 'key':
+                        for body, tainted in key_function_bodies(kw.value, m, c):
+                            h = id_loads(body, tainted)
+                            if h:
+                                bad = (f'the sort key `{ast.unparse(kw.value)}` is built from `{ast.unparse(h[0])}`', kw.value)
+                if bad is None:
+                    for a in x.args:
+                        h = id_loads(a)
+                        if h:
+                            bad = (f'the values being ordered are built from `{ast.unparse(h[0])}`', a)
+                            break
+                if bad:
+                    o.fail(P, where, x, bad[0] + ': ids (and the default names built from them) depend on how many assets were created earlier in the process, '
+                           'so the same model and seed give a different order -- and a different evolution -- in another process', file=m.path, line=x.lineno)
+                else:
+                    o.witness(('order-site', where, nm))
+                    o.sample({'site': ast.unparse(x)[:120], 'function': where, 'file': P.rel(m.path), 'line': x.lineno})
+    o.require(o.instances >= 3, 'fewer ordering sites than confirmed by hand (two queue insertions, the downstream priority sort)')
+
+
 def check(ctx):
     P = ctx.P
     for nm in ('System', 'Environment', 'Event'):
@@ -688,7 +803,10 @@ def check(ctx):
                     'only by an asset, for its own id (a clean-up of the shared id -1 at the end of run() loses plant-level events of the second half)')
     o8 = ctx.shared('c01', 'C01.5', 'C14.8', 'running for a and then for b equals running once for a + b only if what is due after the first leg is still queued when the '
                     'second starts: every accepted scheduling request is queued, whatever its time')
-    return [o1, o2, o3, o4, o5, o6, o7, o8]
+    o9 = Ob('C14.9', 'K12', 'asset ids and the default names built from them are used as identities only (equality, dictionary keys, labels): no ordering comparison, '
+                            'sort key or ordered collection is built from them, except the last key of Event.__lt__ (C14.5)')
+    identity_only(ctx, o9)
+    return [o1, o2, o3, o4, o5, o6, o7, o8, o9]
 
 
 CLAIM = {
